@@ -5,9 +5,10 @@
 // marshalled bytes, and several iterators each driven by a call sequence:
 //
 //	table [names]            => [FromEncoded]                 ("" is written _)
-//	fill <token> [t:ns:v …]  => <hex of PostingList.Marshal> | panic      (nt.EncodeID panics on a name outside the table)
-//	iter                     => ok                            (compact.NewIterator on the marshalled buffer)
-//	next                     => true t:ns:v | false | panic
+//	fill <tokenhex> [t:ns:v …] => <hex of PostingList.Marshal> | panic    (nt.EncodeID panics on a name outside the table;
+//	                              token = 0/1/12/127/128/129/255/256/16383/16384 random bytes, `-` when empty)
+//	iter                     => ok | panic | hang             (compact.NewIterator on the marshalled buffer)
+//	next                     => true t:ns:v | false | panic | hang
 //	adv t:ns:v               => true t:ns:v | false | panic
 //
 // ID lists: groups (type, namespace) in table order; inside a group the values are produced by delta
@@ -23,8 +24,8 @@ package main
 import (
 	"fmt"
 	"sort"
-	"strconv"
 	"strings"
+	"time"
 
 	"diagonal.works/b6"
 	"diagonal.works/b6/ingest/compact"
@@ -94,27 +95,47 @@ func (p *pcase) fill(token string) bool {
 		}
 		var pl compact.PostingList
 		pl.Fill(token, &sliceIter{ids: enc})
-		buf := make([]byte, compact.PostingListHeaderMaxLength+16*len(p.nt.FromEncoded)*8+len(pl.IDs))
+		buf := make([]byte, compact.PostingListHeaderMaxLength+len(token)+16*len(p.nt.FromEncoded)*8+len(pl.IDs))
 		n := pl.Marshal(buf)
 		p.buf = buf[0:n]
 		return hx.Hex(p.buf)
 	})
-	p.c.Op("fill "+token+" "+hx.List(xs), ans)
+	p.c.Op("fill "+hx.Hex([]byte(token))+" "+hx.List(xs), ans)
 	return ans != "panic"
 }
 
 func (p *pcase) iter() {
-	p.it = compact.NewIterator(p.buf, &p.nt)
 	p.pos = -1
 	p.dead = false
 	p.panicked = false
-	p.c.Op("iter", "ok")
+	ans := guarded(func() string {
+		p.it = compact.NewIterator(p.buf, &p.nt)
+		return "ok"
+	})
+	p.c.Op("iter", ans)
+	if ans != "ok" {
+		p.dead, p.panicked = true, true
+	}
+}
+
+// guarded runs one call on the real iterator: a Go panic is the answer "panic"; a call that does not return
+// within 3 s (an iterator fed a mis-parsed buffer can move backwards for ever) is the answer "hang" and the
+// iterator is abandoned (the goroutine is left behind).
+func guarded(f func() string) string {
+	done := make(chan string, 1)
+	go func() { done <- hx.Recover(f) }()
+	select {
+	case ans := <-done:
+		return ans
+	case <-time.After(3 * time.Second):
+		return "hang"
+	}
 }
 
 func (p *pcase) track(ans string) {
 	if !strings.HasPrefix(ans, "true ") {
 		p.dead = true
-		p.panicked = p.panicked || ans == "panic"
+		p.panicked = p.panicked || ans == "panic" || ans == "hang"
 		return
 	}
 	s := ans[5:]
@@ -131,7 +152,7 @@ func (p *pcase) track(ans string) {
 }
 
 func (p *pcase) next() string {
-	ans := hx.Recover(func() string {
+	ans := guarded(func() string {
 		if p.it.Next() {
 			return "true " + render(p.it.FeatureID())
 		}
@@ -143,7 +164,7 @@ func (p *pcase) next() string {
 }
 
 func (p *pcase) adv(id b6.FeatureID) string {
-	ans := hx.Recover(func() string {
+	ans := guarded(func() string {
 		if p.it.Advance(id) {
 			return "true " + render(p.it.FeatureID())
 		}
@@ -405,7 +426,7 @@ func (p *pcase) walk(budget int) {
 
 func (p *pcase) drain() {
 	p.iter()
-	for !p.dead {
+	for n := 0; !p.dead && n < len(p.ids)+3; n++ { // bounded: a broken iterator may never answer false
 		p.next()
 	}
 }
@@ -515,7 +536,7 @@ func genCase(c *hx.Ctx) {
 		}
 	}
 	c.Note(fmt.Sprintf("namespaces-in-list:%d", minInt(nsCount, 6)))
-	if !p.fill("t" + strconv.Itoa(r.Intn(1000))) {
+	if !p.fill(genToken(c)) {
 		c.Note("fill:panic")
 		return
 	}
@@ -531,6 +552,31 @@ func genCase(c *hx.Ctx) {
 	if (len(p.buf) > 64 || nsCount >= 2) && p.advs > 0 {
 		c.NonTrivial()
 	}
+}
+
+// genToken: the token is part of the marshalled header (varint length prefix + bytes) that NewIterator has to
+// get past: lengths around every width change of the prefix (127/128, 16383/16384), random bytes incl. non-ASCII.
+func genToken(c *hx.Ctx) string {
+	r := c.Rand
+	var n int
+	switch {
+	case r.Chance(1, 2):
+		n = []int{0, 1, 12}[r.Intn(3)]
+	case r.Chance(9, 10):
+		n = []int{127, 128, 129, 255, 256}[r.Intn(5)]
+	default:
+		n = []int{16383, 16384}[r.Intn(2)]
+	}
+	c.Note(fmt.Sprintf("token-len:%d", n))
+	b := make([]byte, n)
+	for i := range b {
+		if r.Chance(1, 3) {
+			b[i] = byte(r.Intn(256))
+		} else {
+			b[i] = byte('a' + r.Intn(26))
+		}
+	}
+	return string(b)
 }
 
 func blockBucket(n int) string {
@@ -581,7 +627,7 @@ func corpus(c *hx.Ctx) {
 	}
 	q.ids = append(q.ids, b6.FeatureID{Type: b6.FeatureTypePath, Namespace: "b", Value: 1 << 40})
 	q.ids = append(q.ids, b6.FeatureID{Type: b6.FeatureTypePath, Namespace: "b", Value: ^uint64(0)})
-	q.fill("blocks")
+	q.fill("blocks" + strings.Repeat("\xc3\xa9x", 41)) // 129-byte token: two-byte length prefix (seeded change C08-5)
 	q.drain()
 	q.iter()
 	q.adv(b6.FeatureID{Type: b6.FeatureTypePath, Namespace: "a", Value: 64})
@@ -600,7 +646,7 @@ func corpus(c *hx.Ctx) {
 func main() {
 	hx.Main(hx.Family{
 		Name:     "c08",
-		Rule:     "one namespace table + one id list (groups in table order; delta shapes forcing every varint width at every block offset, groups ending at block ends, values up to 2^64-1, lengths 0..5000; 1 in 40 unsorted/duplicate, 1 in 80 with a namespace outside the table) filled and marshalled by compact.PostingList, then 1 drain + 2..5 mixed Next/Advance walks on compact.Iterator (targets: present ids, value±1, namespace begin/end, namespaces absent from the list, absent types, behind the cursor, outside the table); non-trivial = more than one 64-byte block or more than one namespace, and at least one Advance",
+		Rule:     "one namespace table + one id list (groups in table order; delta shapes forcing every varint width at every block offset, groups ending at block ends, values up to 2^64-1, lengths 0..5000; 1 in 40 unsorted/duplicate, 1 in 80 with a namespace outside the table) filled under a token of 0/1/12/127/128/129/255/256/16383/16384 random bytes (the varint length prefix NewIterator has to get past) and marshalled by compact.PostingList, then 1 drain + 2..5 mixed Next/Advance walks on compact.Iterator (targets: present ids, value±1, namespace begin/end, namespaces absent from the list, absent types, behind the cursor, outside the table); non-trivial = more than one 64-byte block or more than one namespace, and at least one Advance",
 		Quick:    2500,
 		Thorough: 30000,
 		Corpus:   corpus,
